@@ -169,6 +169,7 @@ pub struct Ctx<'a> {
 }
 
 pub const PREEXISTING: &[u8] = b"PRE-EXISTING DESTINATION CONTENT\n";
+pub const SUPERSET_TAIL: &[u8] = b"...AND MORE BYTES OF AN OLDER, LONGER VERSION\n";
 pub const SIBLING: &[u8] = b"somebody else's file next to the destination\n";
 
 /// Names an implementation might be tempted to use for staging next to a destination.
@@ -1034,6 +1035,11 @@ pub fn dest_state(p: &Path) -> DestState {
             Ok(b) => DestState::File(b.len() as u64, sha256_hex(&b)),
             Err(_) => DestState::Other,
         },
+        // a symbolic link to a regular file: what reading the destination gives
+        Ok(m) if m.file_type().is_symlink() && std::fs::metadata(p).map(|t| t.is_file()).unwrap_or(false) => match std::fs::read(p) {
+            Ok(b) => DestState::File(b.len() as u64, sha256_hex(&b)),
+            Err(_) => DestState::Other,
+        },
         Ok(_) => DestState::Other,
     }
 }
@@ -1072,7 +1078,12 @@ fn prep_dest(ctx: &Ctx, dest: Dest, by: &By) -> PathBuf {
     if dest == Dest::Existing {
         std::fs::write(&p, PREEXISTING).expect("prepare destination");
     }
-    if dest == Dest::LinkOfContent {
+    if dest == Dest::Directory {
+        let _ = std::fs::remove_dir_all(&p);
+        std::fs::create_dir_all(&p).expect("prepare destination directory");
+        return p;
+    }
+    if dest == Dest::LinkOfContent || dest == Dest::ExistingSuperset || dest == Dest::SymlinkToContent {
         // found with the harness's own reader of the format, not through the library
         let cp = match by {
             By::Addr(a) => Some(ctx.content_path(*a)),
@@ -1081,10 +1092,27 @@ fn prep_dest(ctx: &Ctx, dest: Dest, by: &By) -> PathBuf {
                 std::fs::read(bucket).ok().and_then(|b| reffmt::lookup(&b, ctx.key(*k))).and_then(|r| r.integrity).and_then(|i| blob::sri_address(&i)).filter(|(_, hex)| hex.len() > 4).map(|(algo, hex)| reffmt::content_path(&ctx.cache, algo, &hex))
             }
         };
+        let mut done = false;
         if let Some(cp) = cp {
             if std::fs::symlink_metadata(&cp).map(|m| m.file_type().is_file()).unwrap_or(false) {
-                let _ = std::fs::hard_link(&cp, &p);
+                done = true;
+                match dest {
+                    Dest::LinkOfContent => {
+                        let _ = std::fs::hard_link(&cp, &p);
+                    }
+                    Dest::SymlinkToContent => {
+                        let _ = std::os::unix::fs::symlink(&cp, &p);
+                    }
+                    _ => {
+                        let mut b = std::fs::read(&cp).unwrap_or_default();
+                        b.extend_from_slice(SUPERSET_TAIL);
+                        let _ = std::fs::write(&p, b);
+                    }
+                }
             }
+        }
+        if !done && dest == Dest::ExistingSuperset {
+            std::fs::write(&p, PREEXISTING).expect("prepare destination");
         }
     }
     p
@@ -1132,6 +1160,13 @@ fn unit(r: cacache::Result<()>) -> Out {
 
 fn extract_result(r: cacache::Result<Option<u64>>, dest: &Path) -> Out {
     let mut st = dest_state(dest);
+    // a destination that is a directory stays an EMPTY directory
+    if let Ok(rd) = std::fs::read_dir(dest) {
+        let n = rd.count();
+        if n > 0 {
+            st = DestState::File(n as u64, "the destination directory is no longer empty".into());
+        }
+    }
     // somebody else's files next to the destination must be exactly as they were
     let sibs = siblings(dest);
     if sibs.iter().any(|s| s.exists()) {
